@@ -103,6 +103,7 @@ class World:
         self.fault = FaultPlan()
         self._classes = {}
         self.deser_cache = {}
+        self.shared_dicts = {}  # name -> (dict handed to nutree, pristine copy)
         self.tree_seq = 0
 
     # --- tree construction ----------------------------------------------------
